@@ -14,7 +14,7 @@ RULE = ('grid: allowance s in {0,1,60,300,86400} x judged bound in {Conditions.N
         'SessionNotOnOrAfter, IssueInstant(+/-), NotBefore>NotOnOrAfter on Conditions / SCD} x placement of the bound at the reject edge and the accept edge '
         '-3,-2,-1,0,+1,+2,+3 s and far values x presence subsets of the other bounds x 5 timestamp spellings (Z, no zone, fractional with/without Z); two AuthnStatements with the judged SessionNotOnOrAfter on either; two bearer confirmations with the judged NotOnOrAfter on either; the attribute-query answer entry point (parse_attribute_query_response, SOAP) for the Conditions and confirmation bounds; '
         '7 zone-offset spellings (+02:00 .. +14:00, -05:00, -11:00, +00:00) of bounds really passed / not reached by 5 s .. 15 h (reject side only); '
-        'generated: every bound present/absent with its own offset. Instants within 1 s of an edge are run but not judged. '
+        'rows under process time zones UTC+5 / UTC-5 / UTC+13; IssueInstant rows delivered over SOAP; generated: every bound present/absent with its own offset. Instants within 1 s of an edge are run but not judged. '
         'Non-trivial = a bound within s+3 of an edge or an ordering violation; distinct = distinct row.')
 ASSUMPTIONS = ['frozen clock (DESIGN 2.4); xmlsec1 stand-in for the response signature',
                'must-reject: now - s > NotOnOrAfter + 1, NotBefore > now + s + 1, NotBefore > NotOnOrAfter, |IssueInstant - now| > 1 day + s + 1',
@@ -80,18 +80,26 @@ def judge(case):
     if must_reject:
         return 'reject', must_reject
     profile = (b.get('snooa') is not None and b.get('snb') is None and not case.get('stmts') and case.get('spell', 0) < 100 and not case.get('scd2')
-               and case.get('entry', 'authn') == 'authn')
+               and case.get('entry', 'authn') in ('authn', 'soap'))
     if comfortable and profile:
         return 'accept', []
     return 'unjudged', []
 
 
 def run(case):
+    if case.get('tz'):
+        with clock.tz(case['tz']):
+            return _run(dict(case, tz=None))
+    return _run(case)
+
+
+def _run(case):
     now = spside.NOW
     s = case['s']
     attrq = case.get('entry') == 'attrq'
+    soap = case.get('entry') == 'soap'
     opts = {'accepted_time_diff': s} if s else {}
-    if attrq:
+    if attrq or soap:
         opts.update({'want_response_signed': False, 'want_assertions_signed': False, 'want_assertions_or_response_signed': False})
     sp = spside.sp_for(opts)
     clock.set_now(now)
@@ -140,6 +148,14 @@ def run(case):
         a['authn'] = []
         r['destination'] = None
         v = spside.deliver_attr(sp, build.render(r, [a]))
+    elif soap:
+        # the same authentication response delivered over the synchronous SOAP binding (unsigned: the SOAP decoder re-serialises the body)
+        r['destination'] = None
+        try:
+            resp = sp.parse_authn_request_response(build.soap_envelope(build.render(r, [a])), world.SOAP, {'id-req-1': '/'})
+            v = ('accept', resp) if resp is not None else ('reject', 'None', '')
+        except Exception as e:
+            v = ('reject', type(e).__name__, str(e)[:200])
     else:
         doc = build.render(r, [a], sign_response=1)
         v = spside.deliver(sp, doc)
@@ -214,11 +230,25 @@ def grid():
                     p = now - s - dist if judged in ('cnooa', 'snooa', 'sess') else now + s + dist
                     out.append({'s': s, 'judged': 'zoned-' + judged, 'subset': 'all', 'bounds': dict(comfy, **{judged: p}), 'ii': now, 'spell': 100 + z, 'near': True})
             out.append({'s': s, 'judged': 'zoned-comfortable', 'subset': 'all', 'bounds': dict(comfy), 'ii': now, 'spell': 100 + z, 'near': True})
+        # the local time zone of the process is not UTC: instants stay what they are
+        if s in (0, 300):
+            for tzname in ('<+05>-5', '<-05>5', 'XYZ-13'):
+                for judged in BOUNDS:
+                    for dist in (3600, 4 * 3600):
+                        p = now - s - dist if judged in ('cnooa', 'snooa', 'sess') else now + s + dist
+                        out.append({'s': s, 'judged': 'tz-' + judged, 'subset': 'all', 'bounds': dict(comfy, **{judged: p}), 'ii': now, 'spell': 0, 'near': True, 'tz': tzname})
+                out.append({'s': s, 'judged': 'tz-comfortable', 'subset': 'all', 'bounds': dict(comfy), 'ii': now, 'spell': 0, 'near': True, 'tz': tzname})
+                for k in (DAY + s + 3600, -(DAY + s + 3600)):
+                    out.append({'s': s, 'judged': 'tz-issue_instant', 'subset': 'all', 'bounds': dict(comfy), 'ii': now + k, 'spell': 0, 'near': True, 'tz': tzname})
         # IssueInstant
         for sign in (-1, 1):
             for k in ks + [FAR, -FAR]:
                 for edge in (DAY + s, DAY):
                     out.append({'s': s, 'judged': 'issue_instant', 'subset': 'all', 'bounds': dict(comfy), 'ii': now + sign * (edge + k), 'spell': len(out) % len(SPELL), 'near': abs(k) <= 3})
+                    if k in (-3, 3, FAR):
+                        out.append({'s': s, 'judged': 'issue_instant-soap', 'subset': 'all', 'bounds': dict(comfy), 'ii': now + sign * (edge + k), 'spell': 0, 'near': abs(k) <= 3, 'entry': 'soap'})
+        for judged in ('cnooa', 'snooa'):
+            out.append({'s': s, 'judged': 'soap-' + judged, 'subset': 'all', 'bounds': dict(comfy, **{judged: now - s - FAR}), 'ii': now, 'spell': 0, 'near': True, 'entry': 'soap'})
         # ordering violations, each bound individually inside its allowance-widened window where possible
         for d in (1, 5, s + 5):
             out.append({'s': s, 'judged': 'order-cond', 'subset': 'all', 'bounds': dict(comfy, cnb=now + d, cnooa=now - d), 'ii': now, 'spell': 0, 'near': True})
